@@ -71,8 +71,29 @@ impl SendWindow {
         self.sent_at = Instant::MAX;
     }
 
+    /// Check that the ACK seq num in the incoming packet (if any) refers to a segment
+    /// we have sent and which is still un-acknowledged.
+    fn check_incoming(&self, hdr: &BtpHdr) -> Result<(), Error> {
+        let Some(ack_seq_num) = hdr.get_ack() else {
+            return Ok(());
+        };
+
+        // Invariant: `level <= window_size`
+        let outstanding = self.window_size - self.level;
+        let unacknowledged = self.last_sent_seq_num.wrapping_sub(ack_seq_num);
+
+        if unacknowledged >= outstanding {
+            warn!("RX data integrity failure: ACK for a sequence number which is not outstanding");
+            return Err(ErrorCode::InvalidData.into());
+        }
+
+        Ok(())
+    }
+
     /// Update the sending window level when a new BTP segment had arrived,
     /// based on the ACK seq num in the incoming packet (if any).
+    ///
+    /// NOTE: `check_incoming` must have succeeded for that packet.
     fn accept_incoming(&mut self, hdr: &BtpHdr) {
         let Some(ack_seq_num) = hdr.get_ack() else {
             return;
@@ -200,53 +221,81 @@ impl RecvWindow {
     }
 
     /// Process an incoming BTP segment, updating the state of the window accordingly.
+    ///
+    /// All checks are done before the state is touched, so that a refused segment
+    /// leaves the window (and the buffered SDUs) exactly as they were.
     fn accept_incoming(&mut self, hdr: &BtpHdr, payload: &[u8], mtu: u16) -> Result<(), Error> {
         // Check received packet integrity, as per the Matter Core spec
         self.check_data_integrity(hdr, payload, mtu)?;
 
+        if self.level == 0 {
+            warn!("RX data integrity failure: the peer is overrunning our receive window (or there is no session)");
+            Err(ErrorCode::InvalidData)?;
+        }
+
+        let mut rem_msg_len = self.rem_msg_len as usize;
+        let mut new_sdu_len = None;
+
         if let Some(msg_len) = hdr.get_msg_len() {
-            if msg_len <= mtu && !hdr.is_final() {
+            if rem_msg_len > 0 {
+                warn!("RX data integrity failure: BEGINNING_SEGMENT while the previous SDU is incomplete");
+                Err(ErrorCode::InvalidData)?;
+            }
+
+            if msg_len as usize <= (mtu as usize).saturating_sub(hdr.len()) && !hdr.is_final() {
                 warn!("RX data integrity failure: An SDU that fits in a single BTP segment must be final");
                 Err(ErrorCode::InvalidData)?;
             }
 
-            self.rem_msg_len = msg_len;
+            rem_msg_len = msg_len as usize;
 
             if msg_len > 0 {
-                if self.buf.free() >= core::mem::size_of::<u16>() {
-                    // New SDU; skip 0-length ones as they do not contain Matter messages
-                    self.buf.push(&u16::to_le_bytes(msg_len));
-                } else {
-                    warn!("RX data integrity failure: got more data when the ring-buffer is full. Is the other party overflowing our recv window?");
-                    Err(ErrorCode::InvalidData)?;
-                }
+                // New SDU; skip 0-length ones as they do not contain Matter messages
+                new_sdu_len = Some(msg_len);
             }
         }
 
-        if self.rem_msg_len < payload.len() as u16 {
+        if rem_msg_len < payload.len() {
             warn!("RX data integrity failure: Packet contains more data than the message length");
             Err(ErrorCode::InvalidData)?;
         }
 
-        self.rem_msg_len -= payload.len() as u16;
-        if hdr.is_final() && self.rem_msg_len > 0 {
+        rem_msg_len -= payload.len();
+        if hdr.is_final() && rem_msg_len > 0 {
             warn!(
                 "RX data integrity failure: Packet is final but the message length is not reached"
             );
             Err(ErrorCode::InvalidData)?;
         }
 
-        if self.buf.free() < payload.len() {
+        let needed = payload.len()
+            + if new_sdu_len.is_some() {
+                core::mem::size_of::<u16>()
+            } else {
+                0
+            };
+
+        if self.buf.free() < needed {
             warn!("RX data integrity failure: got more data when the ring-buffer is full. Is the other party overflowing our recv window?");
             Err(ErrorCode::InvalidData)?;
         }
 
+        // All good, commit
+
+        if let Some(msg_len) = new_sdu_len {
+            self.buf.push(&u16::to_le_bytes(msg_len));
+        }
+
         self.buf.push(payload);
+        self.rem_msg_len = rem_msg_len as u16;
         self.level -= 1;
         // Unwrap is safe because we are only processing BTP data segments here and they always have a sequence number
         self.ack_seq = unwrap!(hdr.get_seq());
+        if self.ack_level == 0 {
+            // The ACK timer runs from the oldest un-acknowledged segment
+            self.received_at = Instant::now();
+        }
         self.ack_level += 1;
-        self.received_at = Instant::now();
 
         if hdr.is_final() && !payload.is_empty() {
             self.buf_messages_ct += 1;
@@ -458,6 +507,9 @@ impl Session {
         self.mtu = mtu;
         self.window_size = window_size;
         self.handshake_pending = !self.initiator;
+        // A (repeated) handshake always starts a new session
+        self.recv_window.reset();
+        self.send_window.reset();
         self.recv_window.level = window_size;
         self.send_window.window_size = window_size;
         self.send_window.level = window_size;
@@ -624,11 +676,16 @@ impl Session {
 
         // Remove the header as we need to report back the payload MTU
         // and we'll use the payload MTU anyway for all operations
-        let mtu = mtu - GATT_HEADER_SIZE as u16;
+        // (the peer might report an MTU below the minimum one)
+        let mtu = mtu.clamp(MIN_MTU, MAX_MTU) - GATT_HEADER_SIZE as u16;
 
         // Make sure we are using a window size that would allow us to receive at least one full BTP SDU
         // TODO: Revisit the mtu and window_size computations
         let window_size = min(req.window_size, Self::initial_window_size(mtu));
+        if window_size == 0 {
+            warn!("RX handshake integrity failure: window size 0");
+            return Err(ErrorCode::InvalidData.into());
+        }
 
         debug!("\n>>RCV (BTP IO) {} [{}]\n      HANDSHAKE REQ {:?}\nSelected version: {}, MTU: {}, window size: {}", address, hdr, req, version, mtu, window_size);
 
@@ -651,6 +708,14 @@ impl Session {
 
         debug!("\n>>RCV (BTP IO) {} [{}]\n      HANDSHAKE RESP {:?}\nSelected version: {}, MTU: {}, window size: {}", address, hdr, resp, resp.version, resp.mtu, resp.window_size);
 
+        if resp.mtu < MIN_MTU - GATT_HEADER_SIZE as u16
+            || resp.mtu > MAX_MTU - GATT_HEADER_SIZE as u16
+            || resp.window_size == 0
+        {
+            warn!("RX handshake integrity failure: segment size or window size out of range");
+            return Err(ErrorCode::InvalidData.into());
+        }
+
         self.setup(address, resp.version, resp.mtu, resp.window_size);
 
         Ok(())
@@ -670,6 +735,7 @@ impl Session {
             payload.len()
         );
 
+        self.send_window.check_incoming(&hdr)?;
         self.recv_window.accept_incoming(&hdr, payload, self.mtu)?;
         self.send_window.accept_incoming(&hdr);
 
